@@ -128,7 +128,7 @@ func checkCase(c Case) fw.Outcome {
 		if pass == 1 {
 			tr.Absent = func(v string) bool { return onlyFirst[v] }
 		}
-		res := xpath.NewCtxFromCurrent(context.Background(), mach, tr.At(ctxs[pass])).Run()
+		res := xpath.NewCtxFromCurrent(context.Background(), mach, tr.At(ctxs[pass])).SetDebug(len(src)%3 == pass).Run()
 		var got []Req
 		for _, call := range tr.Trace {
 			if call.Err != "" {
